@@ -63,6 +63,15 @@ def catalog(tier="quick"):
                     sorted_x=[("dx0", "dx1", "dx2"), ("ex0", "ex1")])
     out.append(("term/Discrete", make_discrete))
 
+    def make_discrete_small(sym):
+        # a Discrete term with a single (x, y) pair (a constant membership function; its array of pairs has shape (1, 2))
+        one = ("Discrete", "one", [sym("sx0", "p")], [sym("sy0", "u")])
+        return base(inputs=[{"name": "X", "terms": [one, T_A, T_B]}],
+                    outputs=[{"name": "O", "terms": [("Discrete", "a", [sym("tx0", "p")], [sym("ty0", "u")], sym("th", "h")), O_B], "aggregation": "Maximum", "defuzzifier": ("Centroid", 2)}],
+                    blocks=[{"name": "rules", "conjunction": "Minimum", "disjunction": "Maximum", "implication": "Minimum", "activation": ("General",),
+                             "rules": ["if X is one then O is a", "if X is b then O is b"]}])
+    out.append(("term/Discrete-one-pair", make_discrete_small))
+
     # ---- norms in every role --------------------------------------------------------------------------------------------------
     for i, sn in enumerate(SNORMS):
         tn = TNORMS[i % len(TNORMS)]
